@@ -215,4 +215,267 @@ func TestVerifE2Pub(t *testing.T) {
 		w.close()
 		memadp.Hook = nil
 	}
+
+	// ---- second family: publishes racing the idle unload of the topic (no quiescence between the timer and the requests).
+	// Every round: everybody leaves g1 (the server arms the idle timer), the timer is made to expire within 0-300us while two
+	// sessions subscribe again and publish at once. A publish may be refused (503/409) or lost with an exiting topic (C14's
+	// business); what C01 demands of the ACCEPTED ones is judged: no number twice, none skipped, stored under its number.
+	for run := 0; run < runs; run++ {
+		rng := rand.New(rand.NewSource(seed*7919 + int64(run)))
+		w := verifNewWorld(t, verifConfig{}, false)
+		for _, s := range snames[:3] {
+			if _, err := w.connect(s, sessUser[s], "auth"); err != nil {
+				t.Fatalf("connect: %v", err)
+			}
+		}
+		if err := w.quiesce(); err != nil {
+			t.Fatal(err)
+		}
+		r := &verifRunner{w: w, t: t, b: &verifBehaviour{}}
+		r.b.Cfg.Users = map[string]string{"u1": "auth", "u2": "auth", "u3": "auth"}
+		r.b.Cfg.Sess = map[string]string{"s1": "u1", "s2": "u2", "s3": "u3"}
+		r.b.Cfg.Topics = []string{"g1", "p12"}
+		for _, a := range []map[string]any{{"a": "NewGrp", "s": "s1", "t": "g1", "mode": []any{"-"}},
+			{"a": "Sub", "s": "s2", "t": "g1", "mode": []any{"-"}}, {"a": "Sub", "s": "s3", "t": "g1", "mode": []any{"-"}}} {
+			if _, err := r.step(a); err != nil {
+				t.Fatalf("setup %v: %v", a, err)
+			}
+		}
+		for _, vs := range w.sess {
+			vs.take()
+		}
+		type ack struct {
+			S       string `json:"s"`
+			T       string `json:"t"`
+			Content string `json:"c"`
+			Code    int    `json:"code"`
+			Seq     int    `json:"seq"`
+		}
+		var acks []ack
+		frames := map[string][]map[string]any{}
+		for _, sn := range snames {
+			frames[sn] = []map[string]any{}
+		}
+		sent := 0
+		for round := 0; round < 12; round++ {
+			for _, sn := range snames[:3] {
+				if _, err := r.step(map[string]any{"a": "Leave", "s": sn, "t": "g1", "unsub": false}); err != nil {
+					t.Fatalf("leave: %v", err)
+				}
+			}
+			tp := w.hub.topicGet(w.canon("g1"))
+			var wg sync.WaitGroup
+			if tp != nil && tp.killTimer != nil {
+				d := time.Duration(rng.Intn(300)) * time.Microsecond
+				wg.Add(1)
+				go func() { defer wg.Done(); time.Sleep(d / 2); tp.killTimer.Reset(d/2 + time.Nanosecond) }()
+			}
+			for _, sn := range []string{"s2", "s3"} {
+				vs := w.sess[sn]
+				d := time.Duration(rng.Intn(300)) * time.Microsecond
+				wg.Add(1)
+				sent += 2
+				go func(sn string, vs *verifSess, d time.Duration, round int) {
+					defer wg.Done()
+					time.Sleep(d)
+					b, _ := json.Marshal(map[string]any{"sub": map[string]any{"id": fmt.Sprintf("e2-sb-%s-%d", sn, round), "topic": w.addr(vs, "g1", false)}})
+					vs.s.dispatchRaw(b)
+					for k := 0; k < 2; k++ {
+						id := fmt.Sprintf("e2-%s-g1-%d-%d", sn, round, k)
+						b, _ := json.Marshal(map[string]any{"pub": map[string]any{"id": id, "topic": w.addr(vs, "g1", false), "content": id[3:]}})
+						vs.s.dispatchRaw(b)
+					}
+				}(sn, vs, d, round)
+			}
+			done := make(chan struct{})
+			go func() { wg.Wait(); close(done) }()
+			select {
+			case <-done:
+			case <-time.After(20 * time.Second):
+				t.Fatalf("unload race run %d round %d: a dispatch did not return (infrastructure)", run, round)
+			}
+			if err := w.quiesce(); err != nil {
+				t.Fatalf("unload race run %d: %v", run, err)
+			}
+			for _, sn := range snames[:3] {
+				vs := w.sess[sn]
+				for _, f := range vs.take() {
+					af := r.absFrame(vs, f)
+					switch af["k"] {
+					case "ctrl":
+						id, _ := af["id"].(string)
+						if len(id) > 5 && id[:3] == "e2-" && id[3:5] != "sb" {
+							code, _ := af["code"].(int)
+							seq := 0
+							if p, ok := af["params"].(map[string]any); ok {
+								if v, ok := p["seq"].(float64); ok {
+									seq = int(v)
+								}
+							}
+							acks = append(acks, ack{S: sn, T: "g1", Content: id[3:], Code: code, Seq: seq})
+						}
+					case "data":
+						frames[sn] = append(frames[sn], map[string]any{"t": af["topic"], "seq": af["seq"], "c": af["content"], "from": af["from"]})
+					}
+				}
+			}
+			// whoever is still attached re-subscribes idempotently so that the next round starts from "everybody attached or not": leave handles both
+			for _, sn := range snames[:3] {
+				_, _ = r.step(map[string]any{"a": "Sub", "s": sn, "t": "g1", "mode": []any{"-"}})
+			}
+			for _, vs := range w.sess {
+				vs.take()
+			}
+		}
+		sort.Slice(acks, func(i, j int) bool { return acks[i].Content < acks[j].Content })
+		snap := r.snapshot()
+		msgs := map[string]any{"p12": []map[string]any{}}
+		var ml []map[string]any
+		for _, m := range snap["msgs"].(map[string]any)["g1"].([]map[string]any) {
+			ml = append(ml, map[string]any{"seq": m["seq"], "c": m["content"], "from": m["from"]})
+		}
+		if ml == nil {
+			ml = []map[string]any{}
+		}
+		msgs["g1"] = ml
+		c := snap["cache"].(map[string]any)["g1"].(map[string]any)
+		l := 0
+		if c["loaded"] == true {
+			l = c["last"].(int)
+		}
+		last := map[string]any{"g1": map[string]any{"live": l, "stored": snap["topics"].(map[string]any)["g1"].(map[string]any)["seq"]},
+			"p12": map[string]any{"live": 0, "stored": 0}}
+		if acks == nil {
+			acks = []ack{}
+		}
+		// publishes lost with an exiting topic are not C01's clause: 'sent' is what was answered
+		rec := map[string]any{"op": "e2unload", "run": run, "writeless": "", "acks": acks, "frames": frames, "msgs": msgs, "last": last, "sent": len(acks), "issued": sent}
+		if err := enc.Encode(rec); err != nil {
+			t.Fatal(err)
+		}
+		w.close()
+		memadp.Hook = nil
+	}
+
+	// ---- third family: a publish QUEUED at a topic instance that the hub has meanwhile unloaded and replaced (gated, deterministic up
+	// to the topic goroutine's own select): the old instance is parked inside an adapter call of a {note}, a publish of an attached
+	// session waits in its queue, the idle-timeout request reaches the hub (the message Topic.handleTopicTimeout sends; here it is
+	// sent for the parked goroutine: the timer ticked just before the session attached), another session loads a NEW instance and
+	// publishes, then the old goroutine is released. What C01 demands: whatever is acknowledged 202 carries a number nobody else got.
+	for run := 0; run < runs; run++ {
+		w := verifNewWorld(t, verifConfig{}, false)
+		for _, s := range snames[:3] {
+			if _, err := w.connect(s, sessUser[s], "auth"); err != nil {
+				t.Fatalf("connect: %v", err)
+			}
+		}
+		if err := w.quiesce(); err != nil {
+			t.Fatal(err)
+		}
+		r := &verifRunner{w: w, t: t, b: &verifBehaviour{}}
+		r.b.Cfg.Users = map[string]string{"u1": "auth", "u2": "auth", "u3": "auth"}
+		r.b.Cfg.Sess = map[string]string{"s1": "u1", "s2": "u2", "s3": "u3"}
+		r.b.Cfg.Topics = []string{"g1", "p12"}
+		for _, a := range []map[string]any{{"a": "NewGrp", "s": "s1", "t": "g1", "mode": []any{"-"}},
+			{"a": "Sub", "s": "s2", "t": "g1", "mode": []any{"-"}}, {"a": "Sub", "s": "s3", "t": "g1", "mode": []any{"-"}},
+			{"a": "Pub", "s": "s1", "t": "g1", "c": "c1"}, {"a": "Leave", "s": "s1", "t": "g1", "unsub": false}, {"a": "Leave", "s": "s3", "t": "g1", "unsub": false}} {
+			if _, err := r.step(a); err != nil {
+				t.Fatalf("setup %v: %v", a, err)
+			}
+		}
+		for _, vs := range w.sess {
+			vs.take()
+		}
+		type ack struct {
+			S       string `json:"s"`
+			T       string `json:"t"`
+			Content string `json:"c"`
+			Code    int    `json:"code"`
+			Seq     int    `json:"seq"`
+		}
+		s2, s3 := w.sess["s2"], w.sess["s3"]
+		raw := func(vs *verifSess, m map[string]any) {
+			b, _ := json.Marshal(m)
+			vs.s.dispatchRaw(b)
+		}
+		parked, release := make(chan struct{}), make(chan struct{})
+		var once sync.Once
+		memadp.PreHook = func(m string) {
+			if m == "SubsUpdate" {
+				fired := false
+				once.Do(func() { fired = true })
+				if fired {
+					close(parked)
+					<-release
+				}
+			}
+		}
+		// s2 (attached): a receipt parks the old instance inside the store; its publish then waits in the old instance's queue
+		go raw(s2, map[string]any{"note": map[string]any{"topic": w.addr(s2, "g1", false), "what": "recv", "seq": 1}})
+		select {
+		case <-parked:
+		case <-time.After(5 * time.Second):
+			memadp.PreHook = nil
+			close(release)
+			t.Fatalf("gated unload run %d: the note did not reach the store (infrastructure)", run)
+		}
+		memadp.PreHook = nil
+		raw(s2, map[string]any{"pub": map[string]any{"id": "e2-s2-g1-old", "topic": w.addr(s2, "g1", false), "content": "s2-g1-old"}})
+		// the idle-timeout request of the old instance reaches the hub
+		w.hub.unreg <- &topicUnreg{rcptTo: w.canon("g1")}
+		for i := 0; i < 2000 && w.hub.topicGet(w.canon("g1")) != nil; i++ {
+			time.Sleep(100 * time.Microsecond)
+		}
+		// s3 loads a new instance and publishes
+		raw(s3, map[string]any{"sub": map[string]any{"id": "e2-sb-s3", "topic": w.addr(s3, "g1", false)}})
+		w.waitFrame(s3, "e2-sb-s3", 3*time.Second)
+		raw(s3, map[string]any{"pub": map[string]any{"id": "e2-s3-g1-new", "topic": w.addr(s3, "g1", false), "content": "s3-g1-new"}})
+		w.waitFrame(s3, "e2-s3-g1-new", 3*time.Second)
+		close(release)
+		time.Sleep(2 * time.Millisecond)
+		if err := w.quiesce(); err != nil {
+			t.Fatalf("gated unload run %d: %v", run, err)
+		}
+		var acks []ack
+		frames := map[string][]map[string]any{}
+		for _, sn := range snames {
+			frames[sn] = []map[string]any{}
+		}
+		for _, sn := range snames[:3] {
+			vs := w.sess[sn]
+			for _, f := range vs.take() {
+				af := r.absFrame(vs, f)
+				if af["k"] == "ctrl" {
+					id, _ := af["id"].(string)
+					if len(id) > 5 && id[:3] == "e2-" && id[3:5] != "sb" {
+						code, _ := af["code"].(int)
+						seq := 0
+						if p, ok := af["params"].(map[string]any); ok {
+							if v, ok := p["seq"].(float64); ok {
+								seq = int(v)
+							}
+						}
+						acks = append(acks, ack{S: sn, T: "g1", Content: id[3:], Code: code, Seq: seq})
+					}
+				}
+			}
+		}
+		snap := r.snapshot()
+		var ml []map[string]any
+		for _, m := range snap["msgs"].(map[string]any)["g1"].([]map[string]any) {
+			ml = append(ml, map[string]any{"seq": m["seq"], "c": m["content"], "from": m["from"]})
+		}
+		if ml == nil {
+			ml = []map[string]any{}
+		}
+		if acks == nil {
+			acks = []ack{}
+		}
+		rec := map[string]any{"op": "e2unloadgate", "run": run, "acks": acks, "msgs": map[string]any{"g1": ml}}
+		if err := enc.Encode(rec); err != nil {
+			t.Fatal(err)
+		}
+		w.close()
+		memadp.Hook = nil
+	}
 }
